@@ -82,7 +82,7 @@ def run_one(m, props, run_tests):
 def main():
     ap = argparse.ArgumentParser()
     ap.add_argument("-p", "--prop"); ap.add_argument("-i", "--id"); ap.add_argument("-j", type=int, default=4)
-    ap.add_argument("--no-tests", action="store_true")
+    ap.add_argument("--no-tests", action="store_true"); ap.add_argument("--match", help="only entries whose id matches this regex")
     ap.add_argument("--export", action="store_true", help="write every edit as mutants/benign/<id>.diff (used by the thorough tier's self-test)")
     ap.add_argument("--keep", help="apply the edit(s) of -i ID to a copy of /repo at this path and stop")
     a = ap.parse_args()
@@ -116,6 +116,7 @@ def main():
         return
     ms = json.load(open(os.path.join(ROOT, "mutants", "benign.json")))
     if a.id: ms = [m for m in ms if m["id"] == a.id]
+    if a.match: ms = [m for m in ms if re.search(a.match, m["id"])]
     props = [a.prop] if a.prop else ALL
     bad = 0
     with cf.ThreadPoolExecutor(max_workers=a.j) as ex:
